@@ -302,3 +302,4 @@ Corollary accepted_barrier_trace_reaches tr n s xy : paccept_all p_init tr = Som
 Proof. intro H. pose proof (paccept_all_reach tr p_init _ PR0 H) as R. cbn in R. inversion R; subst. assumption. Qed.
 Corollary accepted_wg_trace_reaches tr s xy : paccept_all p_init tr = Some (MWg s, xy) -> WReach s.
 Proof. intro H. pose proof (paccept_all_reach tr p_init _ PR0 H) as R. cbn in R. inversion R; subst. assumption. Qed.
+Open Scope Z_scope.
